@@ -1,0 +1,95 @@
+//go:build verif
+
+package fzf
+
+// Verification hooks (build tag verif) for the tokenizer / field index
+// expressions: thin exported wrappers and accessors. No logic.
+
+import (
+	"regexp"
+
+	"github.com/junegunn/fzf/src/algo"
+	"github.com/junegunn/fzf/src/util"
+)
+
+// VerifToken is a read-only view of Token.
+type VerifToken struct {
+	Runes        []rune
+	PrefixLength int
+}
+
+func VerifTokenViews(tokens []Token) []VerifToken {
+	ret := make([]VerifToken, len(tokens))
+	for i, t := range tokens {
+		ret[i] = VerifToken{append([]rune{}, t.text.ToRunes()...), int(t.prefixLength)}
+	}
+	return ret
+}
+
+func VerifMakeTokens(texts []string, prefixLengths []int) []Token {
+	ret := make([]Token, len(texts))
+	for i := range texts {
+		chars := util.ToChars([]byte(texts[i]))
+		ret[i] = Token{&chars, int32(prefixLengths[i])}
+	}
+	return ret
+}
+
+func VerifDelimiterAwk() Delimiter                   { return Delimiter{} }
+func VerifDelimiterStr(s string) Delimiter           { return Delimiter{str: &s} }
+func VerifDelimiterRegex(r *regexp.Regexp) Delimiter { return Delimiter{regex: r} }
+
+// VerifDelimiterOption is what --delimiter=str yields.
+func VerifDelimiterOption(str string) Delimiter { return delimiterRegexp(str) }
+
+func VerifDelimiterParts(d Delimiter) (*regexp.Regexp, *string) { return d.regex, d.str }
+
+func VerifAwkTokenizer(input string) ([]string, int) { return awkTokenizer(input) }
+
+func VerifWithPrefixLengths(tokens []string, begin int) []Token {
+	return withPrefixLengths(tokens, begin)
+}
+
+func VerifRangeParts(r Range) (int, int) { return r.begin, r.end }
+func VerifMakeRange(begin, end int) Range { return Range{begin, end} }
+func VerifNewRange(begin, end int) Range  { return newRange(begin, end) }
+
+func VerifSplitNth(str string) ([]Range, error) { return splitNth(str) }
+
+// VerifNthTransformer is what --with-nth=str / --accept-nth=str yield.
+func VerifNthTransformer(str string) (func(Delimiter) func([]Token, int32) string, error) {
+	return nthTransformer(str)
+}
+
+func VerifAcceptNth(line string, delimiter Delimiter, transformer func([]Token, int32) string, index int32) string {
+	item := Item{text: util.ToChars([]byte(line))}
+	item.text.Index = index
+	return item.acceptNth(false, delimiter, transformer)
+}
+
+// VerifTransformInput is Pattern.transformInput for a pattern with the given nth and delimiter.
+func VerifTransformInput(line string, nth []Range, delimiter Delimiter) []Token {
+	p := &Pattern{nth: nth, delimiter: delimiter}
+	item := Item{text: util.ToChars([]byte(line))}
+	return p.transformInput(&item)
+}
+
+// VerifNthMatch builds a pattern (--nth, --delimiter, query) and matches one line with positions.
+func VerifNthMatch(line string, query string, nth []Range, delimiter Delimiter, fuzzy bool, extended bool, caseMode Case, forward bool) (bool, [][2]int, []int) {
+	p := BuildPattern(NewChunkCache(), make(map[string]*Pattern), fuzzy, algo.FuzzyMatchV2, extended, caseMode,
+		false, forward, true, false, nth, delimiter, revision{}, []rune(query), nil)
+	item := Item{text: util.ToChars([]byte(line))}
+	res, offsets, pos := p.MatchItem(&item, true, util.MakeSlab(slab16Size, slab32Size))
+	if res == nil {
+		return false, nil, nil
+	}
+	offs := make([][2]int, len(offsets))
+	for i, o := range offsets {
+		offs[i] = [2]int{int(o[0]), int(o[1])}
+	}
+	var ps []int
+	if pos != nil {
+		ps = append(ps, *pos...)
+	}
+	return true, offs, ps
+}
